@@ -9,6 +9,7 @@
 //! every run. The families are NOT "all orders"; see `assumptions` in the evidence.
 
 mod depgraph;
+mod shapes;
 mod reference;
 mod remap;
 
@@ -178,6 +179,10 @@ struct Case {
     /// descriptions by re-typing fields (dependency-graph dimension, see depgraph.rs)
     #[serde(default, skip_serializing_if = "Option::is_none")]
     dep_graph: Option<depgraph::DepGraph>,
+    /// one variant of one enum of the description is rewritten to another shape (variant-shape
+    /// dimension, see shapes.rs)
+    #[serde(default, skip_serializing_if = "Option::is_none")]
+    variant_shape: Option<shapes::VariantShape>,
 }
 
 #[derive(Serialize, Deserialize, Clone, Debug, PartialEq, Eq, PartialOrd, Ord)]
@@ -230,10 +235,16 @@ impl Numbering {
     }
 }
 
-fn numbering_of(fx: &Fixtures, r: &Renumber, graph: Option<&depgraph::DepGraph>) -> BTreeMap<String, Numbering> {
+fn numbering_of(fx: &Fixtures, case: &Case) -> BTreeMap<String, Numbering> {
+    let r = &case.renumber;
     let mut m = BTreeMap::new();
-    // a synthesized graph adds one path id per out-edge of a crate, right above the largest id
-    let max_id = |c: &String| fx.max_id[c] + graph.map_or(0, |g| depgraph::extra_ids(g, c));
+    // a synthesized graph adds one path id per out-edge of a crate, a rewritten variant one id per
+    // new field, right above the largest id of the bundled description
+    let max_id = |c: &String| {
+        fx.max_id[c]
+            + case.dep_graph.as_ref().map_or(0, |g| depgraph::extra_ids(g, c))
+            + case.variant_shape.as_ref().map_or(0, |v| shapes::extra_ids(v, c))
+    };
     match r {
         Renumber::Identity => {}
         Renumber::Reverse { crates } => {
@@ -286,7 +297,7 @@ impl<F: Fn()> Drop for Defer<F> {
 
 fn execute(fx: &Fixtures, case: &Case) -> RunResult {
     let t0 = Instant::now();
-    let numbering = Arc::new(numbering_of(fx, &case.renumber, case.dep_graph.as_ref()));
+    let numbering = Arc::new(numbering_of(fx, case));
     let names = Arc::new(fx.all_names.clone());
     let crate_index = {
         let names = names.clone();
@@ -389,11 +400,17 @@ fn execute(fx: &Fixtures, case: &Case) -> RunResult {
             .crates
             .get(name)
             .ok_or_else(|| anyhow::anyhow!("no bundled description for crate {name}"))?;
-        let retyped: Option<Crate> = case.dep_graph.as_ref().filter(|g| depgraph::extra_ids(g, name) > 0).map(|g| {
+        let mut retyped: Option<Crate> = case.dep_graph.as_ref().filter(|g| depgraph::extra_ids(g, name) > 0).map(|g| {
             let mut k = (**c).clone();
             depgraph::retype(&mut k, name, g, fx.max_id[name]);
             k
         });
+        if let Some(vs) = case.variant_shape.as_ref().filter(|v| v.krate == name) {
+            // (never combined with a synthesized graph)
+            let mut k = retyped.take().unwrap_or_else(|| (**c).clone());
+            shapes::apply(&mut k, vs, fx.max_id[name]);
+            retyped = Some(k);
+        }
         let mut out = match (numbering.get(name).copied(), retyped) {
             (None | Some(Numbering::Identity), Some(k)) => k,
             (None | Some(Numbering::Identity), None) => (**c).clone(),
@@ -541,6 +558,7 @@ fn baseline_case(description: &str, deps: &[String]) -> Case {
         load_priority: deps.to_vec(),
         declared_swap: None,
         dep_graph: None,
+        variant_shape: None,
     }
 }
 
@@ -569,6 +587,7 @@ fn plan(fx: &Fixtures, description: &str, base: &RunOut, tier: Tier, scope: &BTr
         load_priority: prio.to_vec(),
         declared_swap: None,
         dep_graph: None,
+        variant_shape: None,
     };
     let mut cases = vec![];
 
@@ -948,6 +967,9 @@ fn describe_case(fx: &Fixtures, c: &Case) -> String {
             s += &format!(" [{krate}#{id} = {}]", item_name(krate, *id));
         }
     }
+    if let Some(vs) = &c.variant_shape {
+        s += &format!(", {}", shapes::describe(fx, vs));
+    }
     if let Some(g) = &c.dep_graph {
         s += &format!(", description synthesized with crate references [{}]", depgraph::shape_name(g));
     }
@@ -986,6 +1008,9 @@ fn replay(fx: &Fixtures, path: &str) -> i32 {
     println!("replay of {}", v["key"]);
     if case.dep_graph.is_some() {
         return depgraph::replay(fx, &case);
+    }
+    if case.variant_shape.is_some() {
+        return shapes::replay(fx, &case);
     }
     println!("step 1: unperturbed run of description {} (facts ascending id, default load priority)", case.description);
     let probe = match execute(fx, &baseline_case(&case.description, &[])) {
@@ -1158,6 +1183,7 @@ fn main() {
     //      never cuts it) --------------------------------------------------------------------------
     let mut samples = Samples::new(64);
     let dep_graphs = depgraph::run_dimension(&fx, &base, tier, &reporter, &deadline, &mut samples);
+    let variant_shapes = shapes::run_dimension(&fx, &base, tier, &reporter, &deadline, &mut samples);
 
     // ---- plan -----------------------------------------------------------------------------------
     // designated description of a dependent crate: fewest loaded crates, then name
@@ -1204,6 +1230,12 @@ fn main() {
     };
     let mut all_cases: Vec<&Case> = plans.values().flat_map(|p| p.cases.iter()).collect();
     all_cases.sort_by_key(|c| (class_rank(c), std::cmp::Reverse(base[&c.description].ms as u64)));
+
+    // development aid: only the synthesized dimensions (the evidence then says exhaustive:false)
+    let dimensions_only = std::env::var("VERIF_C20_DIMENSIONS_ONLY").is_ok();
+    if dimensions_only {
+        all_cases.clear();
+    }
 
     // ---- run ------------------------------------------------------------------------------------
     let results: Vec<Option<RunResult>> = par_map(&all_cases, |_, case| {
@@ -1442,6 +1474,15 @@ fn main() {
         evaluations += dg.evaluations;
         states.extend(dg.states.iter().cloned());
     }
+    if let Some(v) = &variant_shapes {
+        runs.fetch_add(v.runs, Ordering::Relaxed);
+        compared += v.compared;
+        evaluations += v.evaluations;
+        states.extend(v.states.iter().cloned());
+        if v.skipped > 0 {
+            skipped.insert(("altered descriptions".into(), "variant-shape".into()), v.skipped);
+        }
+    }
     let total_runs = runs.load(Ordering::Relaxed);
     let baseline_fps: BTreeSet<(String, u64)> = base.iter().map(|(d, b)| (d.clone(), b.fingerprint)).collect();
     let distinct_nontrivial = states.difference(&baseline_fps).count()
@@ -1450,7 +1491,7 @@ fn main() {
         skipped.insert(("synthesized crate graphs".into(), "dep-graph".into()), dg.skipped);
     }
     let total_skipped: u64 = skipped.values().sum();
-    let exhaustive = total_skipped == 0 && base.len() == EXAMPLES.len() && dep_graphs.is_some();
+    let exhaustive = total_skipped == 0 && base.len() == EXAMPLES.len() && dep_graphs.is_some() && variant_shapes.is_some() && !dimensions_only;
     times.sort_by(|a, b| a.partial_cmp(b).unwrap());
     loader_times.sort_by(|a, b| a.partial_cmp(b).unwrap());
     let mut per_description = serde_json::Map::new();
@@ -1517,10 +1558,12 @@ fn main() {
             "load-order": format!("every permutation of the dependent crates as load priority{}", tier.pick("", ", each with ascending and descending fact order")),
             "declared-swap": "semantic counterpart of the order families: for every enum that reaches the formatter (per-item scope as above) and every pair of neighbouring non-skipped variants, the two trade places in the declared variants list; the registry must be the unperturbed one with exactly those two indices exchanged",
             "dep-graph": "crate-reference graphs with transitive discovery, synthesized from the bundled descriptions by re-typing fields: every DAG on the root and up to 3 further crates x every load order (bound and counts under dependency_graphs)",
+            "variant-shape": "one variant of an app enum rewritten in memory to each shape serde allows (unit, tuple/braced with 0, 1, 2 fields, with skipped fields, whole variant skipped), judged against what serde-reflection traces for that shape (bound, serde facts and counts under variant_shapes)",
             "natural": "unowned runs (real hash-map order, real work-list order): a sample, not part of the exhaustiveness claim",
             "relevant_items": "nodes of the edge relation of the unperturbed run + impls of App/Effect/Capability/Operation, their associated types, their self types, and the fields of App self types",
         },
         "dependency_graphs": dep_graphs.as_ref().map_or(json!("not run: the descriptions it is built from were excluded"), |dg| dg.coverage.clone()),
+        "variant_shapes": variant_shapes.as_ref().map_or(json!("not run: the descriptions it is built from were excluded"), |v| v.coverage.clone()),
         "per_description": per_description,
         "descriptions": base.keys().collect::<Vec<_>>(),
         "distinct_outcomes": outcomes.values().map(|s| s.len()).sum::<usize>(),
@@ -1555,6 +1598,7 @@ fn main() {
                 "thorough tier: per-item members for every loaded crate under every description; all transpositions of two relevant ids of one crate; load permutations with ascending and descending fact order",
             ),
             "the dependency-graph dimension covers every crate-reference DAG on one root (tap_to_pay) and up to three further crates (crux_time, crux_kv, crux_platform in the stated assignments), one representative per topological labelling, under every load order; larger graphs, other roots, cycles between crates and references to crates without a bundled description are outside the space; its descriptions are bundled ones with re-typed fields, not rustdoc output",
+            "the variant-shape dimension rewrites one variant at a time, with primitive (u32/u64) fields, in app-crate enums of the stated descriptions; shapes using serde attributes other than field-level and variant-level skip (flatten, with, tag, other, default variants), generic payloads and enums left without any variant are outside the space",
             "order is owned at the three fact vectors, the formatter's edge vector and the crate work list; iteration inside the datalog engine (ascent, FxHash) is deterministic given those and is not permuted separately",
             "only the 7 bundled example descriptions and the 5 bundled crux_* descriptions are inputs; they are snapshots (rustdoc format 42) and cannot be regenerated here",
             "protocol-type agreement compares crux_cli's output on the bundled snapshots with serde-reflection traced from the current sources; a difference that serde's own rules reproduce on the snapshot is attributed to snapshot age and reported, not flagged",
